@@ -235,13 +235,14 @@ def wrap_verbose(func):
         elif ('verbose' in kwargs):
             logger.warning("Logger level '{0}' not recognised - level is unchanged".format(kwargs['verbose']))
 
-        # Call function itself
-        func_output = func(*args, **kwargs)
-
-        if ('verbose' in kwargs) and (kwargs['verbose'] is not None) and \
-           (current_level is not None):
-            # current_level is None if the logger has not been set up
-            set_level(level=logging._levelToName[current_level])
+        # Call function itself - the previous level is restored even if it raises
+        try:
+            func_output = func(*args, **kwargs)
+        finally:
+            if ('verbose' in kwargs) and (kwargs['verbose'] is not None) and \
+               (current_level is not None):
+                # current_level is None if the logger has not been set up
+                set_level(level=logging._levelToName[current_level])
 
         return func_output
     return inner_verbose
